@@ -11,6 +11,14 @@ func checkC10(p *Program, tier string) *Result {
 	ruleContinuationStates(p, r)
 	ruleLoaderAuthenticators(p, r)
 	ruleDefaultAAA(p, r)
+	ruleBuildKeepsConfig(p, r)
+	// 'a user that exists in the connection's scope': the handler of a scope sees that scope's own, freshly
+	// built user map and nothing else (R-ADMIT, loader clauses)
+	sub := newResult("C13")
+	ruleBuildScopes(p, sub)
+	if r.takeFrom(sub, "R-ADMIT", "users-scoped")+r.takeFrom(sub, "R-ADMIT", "provider-bound-to-its-scope") < 2 {
+		r.undecided("R-ADMIT", "users-scoped", "-", "the loader's per-scope user map clauses were not produced")
+	}
 	r.Trusted = append(r.Trusted, "bcrypt.CompareHashAndPassword returns nil only for the matching password")
 	r.Assumptions = append(r.Assumptions, "completeness ('every well-formed login with the right password is answered PASS') is not decided", "GetPassword prefers the START decoding when bytes parse both ways")
 	return r
